@@ -35,6 +35,11 @@ pub enum End {
 }
 
 pub struct Outcome {
+    /// Digest of the observations only (what a front-end saw), comparable between a run
+    /// on SimDisk and the same run on the real file system.
+    pub obs_digest: u64,
+    /// Parsed store at the end of the run.
+    pub final_store: Option<BTreeMap<String, String>>,
     pub end: End,
     /// Digest of everything observable in the run: ops, observations, disk accesses.
     pub digest: u64,
@@ -47,6 +52,8 @@ pub struct ExecOpts {
     pub time_bound_ns: u64,
     /// Record a human-readable event log (replay / samples).
     pub log: bool,
+    /// selftest fsmodel: run over real directories under this path instead of SimDisk.
+    pub mirror_base: Option<String>,
 }
 
 impl Default for ExecOpts {
@@ -54,6 +61,7 @@ impl Default for ExecOpts {
         ExecOpts {
             time_bound_ns: 0,
             log: false,
+            mirror_base: None,
         }
     }
 }
@@ -118,6 +126,7 @@ pub struct World<'a> {
     opts: ExecOpts,
     digest: u64,
     inter: u64,
+    obs_digest: u64,
     store_fp: u64,
     /// C10: what the harness knows the store file durably holds (None = unknown).
     durable: Option<LearnModel>,
@@ -162,7 +171,10 @@ fn hex_decode(s: &str) -> Vec<u8> {
 
 impl<'a> World<'a> {
     pub fn new(env: &'a Env, plan: &Plan, stats: &'a mut Stats, opts: ExecOpts) -> World<'a> {
-        let disk = SimDisk::new();
+        let disk = match &opts.mirror_base {
+            Some(b) => SimDisk::new_mirror(b),
+            None => SimDisk::new(),
+        };
         if let Some(s) = &plan.prelude.store {
             disk.put(FileId::Store, Some(s.as_bytes().to_vec()), None);
         }
@@ -183,6 +195,7 @@ impl<'a> World<'a> {
             opts,
             digest: 0xcbf2_9ce4_8422_2325,
             inter: 0xcbf2_9ce4_8422_2325,
+            obs_digest: 0xcbf2_9ce4_8422_2325,
             store_fp: 0,
             durable,
             durable_prev: None,
@@ -433,6 +446,7 @@ impl<'a> World<'a> {
 
     fn record_state(&mut self, h: u8, obs: &Obs) {
         self.digest = obs.fingerprint(fnv_add(self.digest, &[h]));
+        self.obs_digest = obs.fingerprint(fnv_add(self.obs_digest, &[h]));
         if !obs.is_empty() {
             let spec = self.slots[h as usize].as_ref().map(|s| s.host.spec);
             let mut fp = fnv_add(self.store_fp, &[h]);
@@ -1210,6 +1224,7 @@ impl<'a> World<'a> {
         };
         self.note(|| format!("{} -> session={} saves={:?}", what, session_after, outcomes));
         self.digest = fnv_add(self.digest, &[b'c', h, session_after as u8, (i & 0xff) as u8]);
+        self.obs_digest = fnv_add(self.obs_digest, &[b'c', h, session_after as u8, (i & 0xff) as u8]);
         let host_alive = self.slots[h as usize].as_ref().map(|s| s.host.alive()).unwrap_or(false);
         if let Some(slot) = self.slots[h as usize].as_mut() {
             slot.fe.reset();
@@ -1828,7 +1843,7 @@ impl<'a> World<'a> {
     /// C05: over the recorded history, every execution that ends with the same surviving
     /// text and the same kind of final event must show the same suggestion as host 0.
     fn judge_history_independence(&mut self) -> Result<(), Stop> {
-        if self.disk.counts().2 > 0 {
+        if !self.disk.is_mirror() && self.disk.counts().2 > 0 {
             return Err(Stop::Inconclusive("the learned store was written during the run (premise: store held fixed)".into()));
         }
         let reference = match &self.slots[0] {
@@ -1904,7 +1919,10 @@ impl<'a> World<'a> {
         let mut executed = 0;
         for (i, op) in plan.ops.iter().enumerate() {
             self.cur = i;
-            match self.step(op) {
+            crate::watch::enter_call(i);
+            let stepped = self.step(op);
+            crate::watch::leave_call();
+            match stepped {
                 Ok(()) => {}
                 Err(Stop::Violation(clause, detail)) => {
                     end = End::Violation(Violation {
@@ -1965,6 +1983,7 @@ impl<'a> World<'a> {
                 }
             }
         }
+        let final_store = self.disk.get(FileId::Store).as_deref().and_then(learn::parse_store);
         // drop all contexts before uninstalling the disk
         for s in self.slots.iter_mut() {
             *s = None;
@@ -1978,6 +1997,8 @@ impl<'a> World<'a> {
         self.stats.add("disk.writes_served", w);
         self.stats.runs += 1;
         Outcome {
+            obs_digest: self.obs_digest,
+            final_store,
             end,
             digest: self.digest,
             executed,
